@@ -16,7 +16,7 @@ from collections import Counter, defaultdict
 import common
 from common import BUILD, COQ, VERIF, Infra, SplitMix, Lock, repo_hash, verif_hash, run
 
-NSCHED = 40
+NSCHED = 48
 TARGET_SCHED = os.path.join(BUILD, "target_sched")
 FAMILY_JSON = os.path.join(BUILD, "sched_family.json")
 HS = os.path.join(VERIF, "harness_sched")
